@@ -213,3 +213,8 @@ Theorem C02_math_fmod_int_props : forall a b, b <> 0 ->
   exists r, math_fmod (NInt a) (NInt b) = ROk (NInt r) /\ a = b * Z.quot a b + r /\ Z.abs r < Z.abs b /\ 0 <= r * a.
 Proof. exact math_fmod_int_props. Qed.
 Print Assumptions C02_math_fmod_int_props.
+
+(* the decimal text of every integer (optional '-', digits, no leading zero) converts back to that integer *)
+Theorem C02_tostring_tonumber_int : forall n, in64 n -> s_str2number (int_to_dec n) = Some (NInt n).
+Proof. exact tostring_tonumber_int. Qed.
+Print Assumptions C02_tostring_tonumber_int.
